@@ -248,15 +248,18 @@ class CallTracer:
         self.traces: Dict[FrameType, CallTrace] = {}
         self.thrown_into: Dict[FrameType, int] = {}
         self.sample_rate = sample_rate
-        self.cache: Dict[CodeType, Optional[Callable[..., Any]]] = {}
+        self.cache: Dict[Any, Optional[Callable[..., Any]]] = {}
         self.should_trace = code_filter
         self.max_typed_dict_size = max_typed_dict_size
 
     def _get_func(self, frame: FrameType) -> Optional[Callable[..., Any]]:
         code = frame.f_code
-        if code not in self.cache:
-            self.cache[code] = get_func(frame)
-        return self.cache[code]
+        # Code objects that differ only in their file name compare equal (identical functions in
+        # two modules), so the file name is part of the key.
+        key = (code.co_filename, code)
+        if key not in self.cache:
+            self.cache[key] = get_func(frame)
+        return self.cache[key]
 
     def handle_call(self, frame: FrameType) -> None:
         # I can't figure out a way to access the value sent to a generator via
